@@ -221,6 +221,7 @@ def _snapshot(runner, tick, ok: bool, rec: Rec) -> dict:
         mailbox = None
     return {
         "t": VClock.t,
+        "now_engine": __import__("time").time(),  # the clock the engine stamps its wake-ups with
         "tick": type(tick).__name__,
         "tick_obj": tick,
         "ok": ok,
